@@ -41,6 +41,7 @@ TNext ==
     \/ TSample
     \/ Is("fin") /\ EvFin("m") /\ last'.a = "fin" /\ last'.h = E.h /\ last'.out = E.out /\ last'.at = E.at
     \/ Is("panic") /\ EvFin(E.task) /\ last'.a = "panic" /\ last'.h = E.h
+    \/ Is("will_panic") /\ E.at \in pn[E.h].wp /\ UNCHANGED vars
     \/ Is("turn_end") /\ TurnEnd /\ last'.a = "turn_end" /\ last'.h = E.h
     \/ TStepEnd
     \/ Is("crash") /\ Crash(E.h) /\ Polls = E.polls
